@@ -305,9 +305,48 @@ func d1Prog(fn string, choices []argChoice) *Prog {
 		p.TimeDep = true
 	}
 	if fn == "@range" && RangeOverflows(vals) {
+		// known not to return on the unchanged tree: generated by the rng
+		// family (one block, so one sandbox restart instead of one per shard)
+		if !hazardFamily {
+			return nil
+		}
+		p.Family = "rng"
 		p.Hazard = "@range loop variable overflows int64"
 	}
 	return p
+}
+
+var hazardFamily bool
+
+// rngBlocks: every {@range ..} over the integers of the pool (constant or
+// group) whose mathematical length is at most 65536 but whose loop variable
+// would leave int64 after the last element.
+func rngBlocks() []*Block {
+	var ints []argChoice
+	for _, v := range Full {
+		if _, ok := bigInt(v); ok {
+			ints = append(ints, argChoice{v, false}, argChoice{v, true})
+		}
+	}
+	return []*Block{{ID: "rng", Each: func(yield func(*Prog) bool) bool {
+		hazardFamily = true
+		defer func() { hazardFamily = false }()
+		for arity := 1; arity <= 3; arity++ {
+			pools := make([][]argChoice, arity)
+			for i := range pools {
+				pools[i] = ints
+			}
+			if !product(pools, nil, func(ch []argChoice) bool {
+				if p := d1Prog("@range", ch); p != nil && p.Hazard != "" {
+					return yield(p)
+				}
+				return true
+			}) {
+				return false
+			}
+		}
+		return true
+	}}}
 }
 
 func d1Blocks(b Bounds) []*Block {
@@ -522,6 +561,7 @@ func innerCalls() []*Node {
 		C("time", L("live")),
 		K("key"),
 		R(5),
+		R(-1),
 		C("divf", L("1"), L("x")),
 		C("nosuchfn", L("1")),
 	}
@@ -646,6 +686,27 @@ func constValue(n *Node) (v string) {
 		return "?"
 	}
 	return c.BuildKey(ArrayCtx(nil, nil))
+}
+
+// ---- family leaf: references on their own and between text -----------------
+
+func leafBlocks() []*Block {
+	refs := []*Node{R(0), R(1), R(3), R(-1), R(99), K("99999999999999999999"), K("key"), K("n"), K("nosuchkey"),
+		K("src"), K("line"), K("."), K("#"), K(".#"), K("#."), K("@"), K("-"), K("+1"), K("01"), K("0x1")}
+	return []*Block{{ID: "leaf/all", Each: func(yield func(*Prog) bool) bool {
+		for _, a := range refs {
+			if !yield(&Prog{Family: "leaf", Template: a.Print(0), Groups: []string{"a\"b", "\x01\xff", "007"}, Dynamic: true}) {
+				return false
+			}
+			for _, b := range refs {
+				n := S(L("x"), a, L("{"), b, L(" }"))
+				if !yield(&Prog{Family: "leaf", Template: n.Print(0), Groups: []string{"a\"b", "\x01\xff", "007"}, Dynamic: true}) {
+					return false
+				}
+			}
+		}
+		return true
+	}}}
 }
 
 // ---- family math: {! formula} -----------------------------------------------------
@@ -773,6 +834,7 @@ func rawStrings(prefix []byte, l int, yield func(*Prog) bool) bool {
 func WellFormedBlocks(b Bounds) []*Block {
 	var out []*Block
 	out = append(out, forBlocks()...)
+	out = append(out, leafBlocks()...)
 	out = append(out, hofBlocks()...)
 	out = append(out, mathBlocks()...)
 	out = append(out, d2Blocks(b)...)
@@ -780,9 +842,11 @@ func WellFormedBlocks(b Bounds) []*Block {
 	return out
 }
 
-// AllBlocks adds the malformed strings (C08 only).
+// AllBlocks adds the malformed strings and the @range calls that are known
+// not to return on the unchanged tree (C08 only; run in a sandbox).
 func AllBlocks(b Bounds) []*Block {
-	return append(WellFormedBlocks(b), rawBlocks(b)...)
+	out := append(rngBlocks(), WellFormedBlocks(b)...)
+	return append(out, rawBlocks(b)...)
 }
 
 // Describe states the enumeration for the evidence rule.
@@ -793,6 +857,7 @@ func Describe(b Bounds) string {
 		"(hof) @map/@filter/@reduce (with and without initial value) over 5 arrays x sub-expressions {0},{1},{-1},{5},{key},{time live},x,'' and every function at arity 1..2 over {0},{1},{-1},{key},0,2,x; "+
 		"(for) @for over 6 starts x 10 conditions x 7 increments (non-terminating conditions only with 8 non-growing combinations); "+
 		"(d2) every function x arity 1..3 x every position holding one of %d inner calls (foldable constants, dynamic, {time live}, key, erroneous), other arguments from the reduced pool (%d values at arity 3) as constant or group; "+
-		"(math) %d formulas (17 binary operators x 7x7 operands, 18 unary, malformed shapes) x all pairs of %d group values",
+		"(leaf) 20 group/key references ({0},{-1},{99},{key},{src},{line},{.},{#},{.#},{@}, names that look like numbers ...) alone and in pairs between literal text; "+
+		"(rng, C08 only) every @range over the integers of the pool whose length is <= 65536 but whose loop variable would leave int64; (math) %d formulas (17 binary operators x 7x7 operands, 18 unary, malformed shapes) x all pairs of %d group values",
 		len(Functions()), b.D1MaxArity, len(Full), b.D1FullArity, len(Reduced), len(innerCalls()), len(b.D2Arity3Pool), len(mathFormulas()), len(MathValues))
 }
